@@ -81,11 +81,13 @@ class Scheduler:
             setattr(obj, attr, p.globals[(id(obj), attr)])
 
     # -- process creation -------------------------------------------------------------------
-    def spawn(self, name, main, crashable=False):
-        """main(loop) is a coroutine function run on the process' own SimLoop"""
+    def spawn(self, name, main, crashable=False, plain=False):
+        """main(loop) is a coroutine function run on the process' own SimLoop; with
+        `plain` it is an ordinary callable (it may run the loop itself)"""
         pid = self.next_pid
         self.next_pid += 1
         p = SimProcess(self, pid, name, main)
+        p.plain = plain
         p.crashable = crashable
         p.loop = self.env.new_loop(f"p{pid}")
         p.loop.yield_hook = lambda kind, t=None, p=p: self._loop_hook(p, kind, t)
@@ -105,7 +107,10 @@ class Scheduler:
         try:
             if self.dead:
                 raise SimKilled()
-            p.result = p.loop.run_coro(p.main(p.loop))
+            if getattr(p, "plain", False):
+                p.result = p.main()
+            else:
+                p.result = p.loop.run_coro(p.main(p.loop))
         except SimKilled:
             p.exc = p.exc or SimKilled()
             return
